@@ -23,6 +23,9 @@ for f in sorted(glob.glob(ROOT+'/mutants/C*/*.diff')):
     pid=os.path.basename(os.path.dirname(f)); items.append(('manual',pid,pid+'/'+os.path.basename(f)[:-5],f))
 only=[a for a in sys.argv[1:] if not a.startswith('--')]
 thorough='--thorough' in sys.argv; cross='--cross' in sys.argv
+# changes whose violation is observable only through the clause of a neighbouring property:
+# when the own check passes, these checks are tried too (and named in the result)
+NEIGHBOUR={'C18-m5':['C17'],'C20-m6':['C11'],'C03-m7':['C14'],'C13-m8':['C09'],'C20-m8':['C07'],'C12-m8':['C05']}
 sys.path.insert(0,ROOT)
 from checks_cfg import CHECKS
 rows=[]
@@ -38,9 +41,14 @@ for kind,pid,name,patch in items:
         if rc==0 and thorough:
             rc,tests,wall=run(pid,'thorough'); res={0:'MISSED',1:'detected',2:'inconclusive'}.get(rc,str(rc)); tier='thorough'
         others=[]
+        if rc==0 and name in NEIGHBOUR:
+            for q in NEIGHBOUR[name]:
+                r2,t2,w2=run(q,'quick')
+                if r2==1:
+                    res=f'detected by {q}'; tests=t2; wall=w2; others.append(q)
         if cross:
             for q in CHECKS:
-                if q==pid: continue
+                if q==pid or q in others: continue
                 r2,_,_=run(q,'quick')
                 if r2==1: others.append(q)
     finally:
